@@ -27,11 +27,15 @@ def cases(tier, seed):
     out = []
     for k in range(n):
         r = random.Random("C09/%d/%s/%d" % (seed, tier, k))
-        c = dict(dw=r.choice([32, 32, 64, 128]), wdepth=r.choice([2, 4, 16, 16]), rdepth=r.choice([2, 4, 16, 16]),
+        c = dict(dw=r.choice([32, 32, 64, 128, 256]), wdepth=r.choice([2, 4, 16, 16, 3, 8]), rdepth=r.choice([2, 4, 16, 16, 3, 8]), idw=r.choice([4, 4, 1, 8]),
                  base=r.choice([0, 0, 0x10000, 0x40000000, 0x400, 0x2000]), rmw=bool(k % 3 == 2), cls=CLASSES[k % len(CLASSES)],
                  nw=r.randint(8, 20), nr=r.randint(8, 20), ready_b=r.choice([1.0, 0.6, 0.2]), ready_r=r.choice([1.0, 0.6, 0.2]),
                  long_stall=r.choice([0, 0, 0.02]), gap=r.choice([0, 0, 3, 10]), cmd_ready_prob=r.choice([1.0, 0.7, 0.3]),
                  extra_lat=r.choice([(0, 0), (0, 8), (0, 30)]), stub_long=r.choice([0, 0, 0.01]), seed="C09/%d/%d" % (seed, k))
+        if c["rmw"] and k % 2 == 0:
+            # read-modify-write mode with a master that has one single-beat write in flight at a time (W never ahead of AW,
+            # next write only after the B of the previous one): the open RMW finding cannot be involved, any violation is new
+            c["cls"], c["serial"] = "rmw-serial", True
         c["name"] = "%04d-w%d-d%d.%d-%s%s-%s" % (k, c["dw"], c["wdepth"], c["rdepth"], c["cls"], "-rmw" if c["rmw"] else "", hex(c["base"]))
         c["cost"] = (c["nw"] + c["nr"]) * 4
         out.append(c)
@@ -54,6 +58,8 @@ def gen_burst(r, c, nb, hot):
     full = nb.bit_length() - 1
     cls = c["cls"]
     kind = cls if cls != "mixed" else r.choice(["incr", "incr", "wrap", "fixed", "incr"])
+    if cls == "rmw-serial":
+        kind = r.choice(["incr", "narrow"])
     size = full
     if kind == "narrow":
         size = r.randrange(0, full + 1)
@@ -71,9 +77,18 @@ def gen_burst(r, c, nb, hot):
         addr = word * nb
         burst = BURST_FIXED
     else:
-        ln = r.choice([0, 0, 1, 2, 3, 5, 7, 15])
-        addr = word * nb + (r.randrange(nb // nbytes) * nbytes if size < full else 0)
+        ln = r.choice([0, 0, 1, 2, 3, 5, 7, 15, 15, 31, 63] if r.random() < 0.9 else [127, 255])
+        if ln > 15:
+            # AXI4 long INCR bursts: stay inside one 4 KiB page (protocol rule) and inside the port
+            while (ln + 1) * nbytes > 4096:
+                ln //= 2
+            page = (word * nb) // 4096 * 4096
+            room = 4096 - (ln + 1) * nbytes
+            word = (page + (r.randrange(room // nb + 1) * nb if room > 0 else 0)) // nb
+        addr = word * nb + (r.randrange(nb // nbytes) * nbytes if size < full and ln <= 15 else 0)
         burst = BURST_INCR
+    if cls == "rmw-serial":
+        ln, burst = 0, BURST_INCR
     return addr, ln, size, burst
 
 
@@ -93,7 +108,7 @@ def run_case(c):
 
     class DUT(Module):
         def __init__(self):
-            self.axi = LiteDRAMAXIPort(data_width=dw, address_width=32, id_width=4)
+            self.axi = LiteDRAMAXIPort(data_width=dw, address_width=32, id_width=c.get("idw", 4))
             self.port = LiteDRAMNativePort("both", aw_native, dw)
             self.submodules.bridge = LiteDRAMAXI2Native(self.axi, self.port, w_buffer_depth=c["wdepth"], r_buffer_depth=c["rdepth"],
                                                         base_address=c["base"], with_read_modify_write=c["rmw"])
@@ -102,7 +117,7 @@ def run_case(c):
         from ..corebackend import CoreBackend
         stub = CoreBackend(1, databits=dw, refresh=c["refresh"], cmd_buffer_depth=c["cmd_buffer_depth"])
         dut = stub.dut
-        dut.axi = LiteDRAMAXIPort(data_width=dw, address_width=32, id_width=4)
+        dut.axi = LiteDRAMAXIPort(data_width=dw, address_width=32, id_width=c.get("idw", 4))
         dut.submodules.bridge = LiteDRAMAXI2Native(dut.axi, stub.ports[0], w_buffer_depth=c["wdepth"], r_buffer_depth=c["rdepth"],
                                                     base_address=c["base"], with_read_modify_write=c["rmw"])
         store = stub.store
@@ -138,7 +153,7 @@ def run_case(c):
             x = r.random()
             strb = legal if x < 0.6 else (legal & r.getrandbits(nb))
             beats.append((r.getrandbits(dw), strb))
-        writes.append(dict(id=r.getrandbits(4), addr=c["base"] + addr, len=ln, size=size, burst=burst, beats=beats,
+        writes.append(dict(id=r.getrandbits(c.get("idw", 4)), addr=c["base"] + addr, len=ln, size=size, burst=burst, beats=beats,
                            gap_aw=r.randint(0, c["gap"]) if c["gap"] else 0, gaps_w=[r.choice([0, 0, 0, r.randint(1, 6)]) for _ in beats],
                            off=addr))
     for k in range(c["nr"]):
@@ -153,10 +168,11 @@ def run_case(c):
         baddrs = beat_addresses(addr, ln, size, burst)
         if burst == BURST_WRAP and any(baddrs[i + 1] < baddrs[i] for i in range(len(baddrs) - 1)):
             wrapped += 1
-        reads.append(dict(id=r.getrandbits(4), addr=c["base"] + addr, len=ln, size=size, burst=burst, after_b=after,
+        reads.append(dict(id=r.getrandbits(c.get("idw", 4)), addr=c["base"] + addr, len=ln, size=size, burst=burst, after_b=after,
                           gap=r.randint(0, c["gap"]) if c["gap"] else 0, off=addr))
     reads.sort(key=lambda x: -1 if x["after_b"] is None else x["after_b"])
-    m = AXIMaster(dut.axi, writes, reads, r, ready_b=c["ready_b"], ready_r=c["ready_r"], long_stall=c["long_stall"])
+    m = AXIMaster(dut.axi, writes, reads, r, ready_b=c["ready_b"], ready_r=c["ready_r"], long_stall=c["long_stall"],
+                  serial_writes=bool(c.get("serial")))
     state = {}
     total_r = sum(x["len"] + 1 for x in reads)
 
